@@ -4,7 +4,7 @@
    value; file header FF k l e v s|i, version, reserved|flags); the byte-level correspondence compares them
    with what klevdb writes.  The decoders are transcriptions of readV1/readV2.  All theorems hold for
    every checksum function with values in [0, 2^32). *)
-From KV Require Import Base Model Codec CodecProofs.
+From KV Require Import Base Model Codec CodecProofs RecoverProofs TrimProofs LogInv Spec.
 
 (* any message within the writer's guards reads back identical, from the position where it was
    written, whatever precedes and follows it in the file; the reader reports the next position *)
@@ -45,3 +45,26 @@ Theorem C13_encoding_injective :
   forall crc m1 m2, crc_range crc -> msg_ok m1 -> msg_ok m2 -> enc_rec crc V2 m1 = enc_rec crc V2 m2 -> m1 = m2.
 Proof. exact enc_rec_v2_injective. Qed.
 Print Assumptions C13_encoding_injective.
+
+(* index files: what index.Write produces (both versions, all four layouts: offset+position, optional timestamp,
+   optional key hash) index.Read returns exactly *)
+Theorem C13_index_roundtrip :
+  forall p base v items, Forall (item_ok p) items ->
+  (v = V1 -> match items with [] => True | it :: _ => ioff it = base /\ 0 <= base end) ->
+  index_read p base (enc_index v p items) = Ok (v, items).
+Proof. exact index_read_enc. Qed.
+Print Assumptions C13_index_roundtrip.
+
+(* the V1 decoder too accepts only byte-for-byte valid records *)
+Theorem C13_v1_decoder_sound :
+  forall crc b pos m nxt, bytes_ok b -> 0 <= pos -> read_rec crc V1 b pos = Ok (m, nxt) ->
+  nxt = pos + rec_size V1 m /\ sub b pos (rec_size V1 m) = enc_rec crc V1 m.
+Proof. exact read_rec_v1_sound. Qed.
+Print Assumptions C13_v1_decoder_sound.
+
+(* Stat reports exactly the number of live messages *)
+Theorem C13_stat_counts_live_messages :
+  forall (H : bytes -> Z) st, Inv st ->
+  exists st' sg sz, log_stat H st = Ok (st', (sg, zlen (live (abs st)), sz)) /\ Inv st' /\ abs st' = abs st.
+Proof. exact log_stat_count. Qed.
+Print Assumptions C13_stat_counts_live_messages.
